@@ -12,7 +12,7 @@ Proof. exact safe_never_panics. Qed.
 Print Assumptions C15_analysis_sound.
 
 (* Every handler is accepted, hence: no message shape, however short, long or incomplete its fields, and no
-   dependency outcome makes any of the 17 handlers panic. *)
+   dependency outcome makes any of the 18 handlers / ingress paths panic. *)
 Theorem C15_no_handler_panics : forall h sh, In h all_handlers -> fst (run (program h) sh) <> RPanic.
 Proof. exact no_handler_panics. Qed.
 Print Assumptions C15_no_handler_panics.
